@@ -1425,6 +1425,7 @@ func c08WriterProbe(c *kit.Ctx) {
 func runC08(c *kit.Ctx) {
 	verifhook.Set(c08mon.handle)
 	defer verifhook.Set(nil)
+	c08LateParameterSets(c)
 	n := c.Pick(1200, 30000)
 	for i := 0; i < n; i++ {
 		if !c.Mine(i) {
